@@ -175,6 +175,8 @@ def run(args, cwd, home, tz="UTC", trace=False, wall=WALL_LIMIT_S, env_extra=Non
         env["FSV_FAKE_EPOCH"] = str(int(fake_epoch))
     if _flavour["env"]:
         env.update(_flavour["env"])
+    if os.environ.get("FSV_COVERAGE"):
+        env["LLVM_PROFILE_FILE"] = os.path.join(os.environ["FSV_COVERAGE"], "fs-%16m.profraw")
     if env_extra:
         env.update(env_extra)
     if wrapper is None and _flavour["wrapper"]:
